@@ -342,6 +342,18 @@ theorem YeoJohnson.backward_forward_lam_one (p : YeoJohnson.Params ℝ) (x : ℝ
   · exact Or.inr (Or.inr ⟨hw, hl.ge⟩)
   · exact Or.inr (Or.inl ⟨not_le.mp hw, hl.le⟩)
 
+
+/-- image side without a sliver: every `y ≤ 0` of the image is recovered exactly, for all parameters -/
+theorem YeoJohnson.forward_backward_of_nonpos (p : YeoJohnson.Params ℝ) (y : ℝ) (hp : YeoJohnson.admissible p)
+    (hy : YeoJohnson.codom p y) (hy0 : y ≤ 0) :
+    (YeoJohnson.backward p y).bind (YeoJohnson.forward p) = some y := by
+  apply YeoJohnson.forward_backward p y hp hy
+  have h1 : ¬ eps ≤ y := by linarith [eps_pos]
+  have h2 : ¬ eps ≤ YeoJohnson.bwdW p.lam y := by
+    have := YeoJohnson.bwdW_nonpos p.lam y hy0 (hy.2 h1)
+    linarith [eps_pos]
+  exact ⟨fun h => absurd h h1, fun h => absurd h h2⟩
+
 /-- full strength on the sliver (not proved): inside it the two branches differ by `O(EPS³)` -/
 def YeoJohnson.sliver_statement : Prop :=
   ∀ (p : YeoJohnson.Params ℝ) (x : ℝ), YeoJohnson.admissible p →
